@@ -1603,3 +1603,308 @@ Proof.
     now rewrite E.
   - exfalso. eapply Hnowait; eauto.
 Qed.
+
+(* ------------------------------------------------------------------------------------------ *)
+(* Well-formed client programs never run into the discipline guards                           *)
+
+Definition instr_eq_dec : forall a b : instr, {a = b} + {a <> b}.
+Proof. decide equality; apply Nat.eq_dec. Defined.
+
+Definition cnti (i : instr) (k : prog) : nat := count_occ instr_eq_dec k i.
+
+(* each callback id is constructed at most once and destroyed at most once in the whole program
+   text (thread programs and callback bodies) *)
+Definition wf (progs bods : list prog) : Prop :=
+  forall c, cnti (IReg c) (concat progs ++ concat bods) <= 1 /\
+            cnti (IDereg c) (concat progs ++ concat bods) <= 1.
+
+Fixpoint sumn (n : nat) (f : nat -> nat) : nat :=
+  match n with 0 => 0 | S k => sumn k f + f k end.
+
+Lemma sumn_ext n f g : (forall i, i < n -> f i = g i) -> sumn n f = sumn n g.
+Proof. induction n; cbn; auto. intros H. rewrite IHn, H; auto. Qed.
+
+Lemma sumn_upd n (f g : nat -> nat) t :
+  (forall i, i <> t -> g i = f i) -> t < n -> sumn n g + f t = sumn n f + g t.
+Proof.
+  intros Hne. induction n; [lia|]. intros Hlt. cbn.
+  destruct (Nat.eq_dec t n) as [->|Hn].
+  - rewrite (sumn_ext n g f); [lia|]. intros i Hi. apply Hne. lia.
+  - rewrite (Hne n) by congruence. assert (t < n) by lia. specialize (IHn H). lia.
+Qed.
+
+Lemma sumn_same n (f g : nat -> nat) t :
+  (forall i, i <> t -> g i = f i) -> n <= t -> sumn n g = sumn n f.
+Proof. intros Hne Hle. apply sumn_ext. intros i Hi. apply Hne. lia. Qed.
+
+Fixpoint stk_cnt (i : instr) (l : list frame) : nat :=
+  match l with
+  | [] => 0
+  | FRun _ k :: r => cnti i k + stk_cnt i r
+  | _ :: r => stk_cnt i r
+  end.
+
+Definition body_cnt (i : instr) (s : st) (c : nat) : nat :=
+  if is_xnone (xst (cbs s c)) then cnti i (bodies s c) else 0.
+
+Definition pend (i : instr) (n m : nat) (s : st) : nat :=
+  sumn n (fun t => stk_cnt i (thr s t)) + sumn m (fun c => body_cnt i s c).
+
+Definition used_reg (s : st) (c : nat) : nat := match cst (cbs s c) with CNew => 0 | _ => 1 end.
+Definition used_dereg (s : st) (c : nat) : nat := match dst (cbs s c) with DNone => 0 | _ => 1 end.
+
+Record InvW (n m : nat) (s : st) : Prop := {
+  W_thr : forall t, n <= t -> thr s t = [];
+  W_bod : forall c, m <= c -> bodies s c = [];
+  W_reg : forall c, pend (IReg c) n m s + used_reg s c <= 1;
+  W_dereg : forall c, pend (IDereg c) n m s + used_dereg s c <= 1
+}.
+
+Lemma pend_upd i n m s s' t stk :
+  t < n -> thr s' = upd (thr s) t stk -> bodies s' = bodies s ->
+  (forall c, is_xnone (xst (cbs s' c)) = is_xnone (xst (cbs s c))) ->
+  pend i n m s' + stk_cnt i (thr s t) = pend i n m s + stk_cnt i stk.
+Proof.
+  intros Hlt Et Eb Ex. unfold pend.
+  assert (H1 : sumn m (fun c => body_cnt i s' c) = sumn m (fun c => body_cnt i s c)).
+  { apply sumn_ext. intros c _. unfold body_cnt. now rewrite Ex, Eb. }
+  assert (H2 : sumn n (fun t0 => stk_cnt i (thr s' t0)) + stk_cnt i (thr s t) =
+               sumn n (fun t0 => stk_cnt i (thr s t0)) + stk_cnt i stk).
+  { rewrite (sumn_upd n (fun t0 => stk_cnt i (thr s t0)) (fun t0 => stk_cnt i (thr s' t0)) t); auto.
+    - rewrite Et, upd_eq. reflexivity.
+    - intros j Hj. rewrite Et, upd_neq; auto. }
+  lia.
+Qed.
+
+(* the step starts the body of callback c: its instructions move from the not-yet-run bodies
+   onto the stack *)
+Lemma pend_upd_x i n m s s' t stk c r' :
+  t < n -> thr s' = upd (thr s) t stk -> bodies s' = bodies s -> cbs s' = upd (cbs s) c r' ->
+  is_xnone (xst (cbs s c)) = true -> is_xnone (xst r') = false ->
+  (forall c, m <= c -> bodies s c = []) ->
+  pend i n m s' + stk_cnt i (thr s t) + cnti i (bodies s c) = pend i n m s + stk_cnt i stk.
+Proof.
+  intros Hlt Et Eb Ec Hx Hx' Hbod. unfold pend.
+  assert (H2 : sumn n (fun t0 => stk_cnt i (thr s' t0)) + stk_cnt i (thr s t) =
+               sumn n (fun t0 => stk_cnt i (thr s t0)) + stk_cnt i stk).
+  { rewrite (sumn_upd n (fun t0 => stk_cnt i (thr s t0)) (fun t0 => stk_cnt i (thr s' t0)) t); auto.
+    - rewrite Et, upd_eq. reflexivity.
+    - intros j Hj. rewrite Et, upd_neq; auto. }
+  assert (H1 : sumn m (fun c0 => body_cnt i s' c0) + cnti i (bodies s c) =
+               sumn m (fun c0 => body_cnt i s c0)).
+  { destruct (Nat.lt_ge_cases c m) as [Hc|Hc].
+    - pose proof (sumn_upd m (fun c0 => body_cnt i s c0) (fun c0 => body_cnt i s' c0) c) as Hu.
+      assert (Hs : body_cnt i s c = cnti i (bodies s c)) by (unfold body_cnt; now rewrite Hx).
+      assert (Hs' : body_cnt i s' c = 0) by (unfold body_cnt; rewrite Ec, upd_eq, Hx'; reflexivity).
+      cbv beta in Hu. rewrite Hs, Hs' in Hu.
+      assert (Hne : forall j, j <> c -> body_cnt i s' j = body_cnt i s j).
+      { intros j Hj. unfold body_cnt. rewrite Ec, Eb, upd_neq; auto. }
+      specialize (Hu Hne Hc). lia.
+    - rewrite (Hbod c Hc). cbn. rewrite Nat.add_0_r. apply sumn_same with (t := c); auto.
+      intros j Hj. unfold body_cnt. rewrite Ec, Eb, upd_neq; auto. }
+  lia.
+Qed.
+
+Lemma cnti_cons i j k : cnti i (j :: k) = (if instr_eq_dec j i then 1 else 0) + cnti i k.
+Proof. unfold cnti. cbn. destruct (instr_eq_dec j i); reflexivity. Qed.
+
+Lemma thr_lt n m s t : InvW n m s -> thr s t <> [] -> t < n.
+Proof.
+  intros HW Hne. destruct (Nat.lt_ge_cases t n); auto. exfalso. apply Hne. apply (W_thr _ _ _ HW). auto.
+Qed.
+
+Lemma end_not_xnone s t c l : InvB s -> thr s t = FRun (Some c) [] :: l -> is_xnone (xst (cbs s c)) = false.
+Proof.
+  intros HB E. pose proof (B_fr _ HB c t) as HF. rewrite E in HF. cbn in HF. rewrite Nat.eqb_refl in HF.
+  destruct (xst (cbs s c)); cbn in *; auto; lia.
+Qed.
+
+(* relate pend before and after the step (hypothesis E) *)
+Ltac pend_rel HB Hlt Hbod :=
+  let E := fresh "E" in
+  match goal with |- context [pend ?i ?n ?m ?s'] =>
+    match goal with Et : thr ?s ?t = _ :: _ |- _ =>
+      first
+      [ (* the step starts a callback body *)
+        match goal with
+        | |- context [FRun (Some ?c) (bodies s ?c)] =>
+            let Hx := fresh "Hx" in
+            assert (Hx : is_xnone (xst (cbs s c)) = true);
+            [ rewrite (B_x _ HB c);
+              first [ match goal with Hc : cst (cbs s c) = _ |- _ => rewrite Hc; reflexivity end
+                    | match goal with Hl : lst s = c :: _ |- _ =>
+                        replace (cst (cbs s c)) with CLinked;
+                        [reflexivity|symmetry; apply (B_in _ HB); rewrite Hl; now left] end ]
+            | assert (E := pend_upd_x i n m s s' t _ c _ Hlt eq_refl eq_refl eq_refl Hx eq_refl Hbod) ]
+        end
+      | assert (E := pend_upd i n m s s' t _ Hlt eq_refl eq_refl);
+        let T := type of E in match T with (?P -> _) =>
+          let Hp := fresh "Hp" in
+          assert (Hp : P);
+          [ intros c1; cbn; unfold upd; eqb_cases; cbn; auto;
+            first [ match goal with Hx : xst _ = _ |- _ => rewrite Hx; reflexivity end
+                  | match goal with Et' : thr _ _ = FRun (Some _) [] :: _ |- _ =>
+                      rewrite (end_not_xnone _ _ _ _ HB Et'); reflexivity end ]
+          | specialize (E Hp); clear Hp ] end ];
+      rewrite Et in E; cbn [stk_cnt] in E; rewrite ?cnti_cons in E
+    end
+  end.
+
+Lemma InvW_reg n m s t s' ev : InvB s -> InvW n m s -> step t s = Some (s', ev) ->
+  forall c0, pend (IReg c0) n m s' + used_reg s' c0 <= 1.
+Proof.
+  intros HB HW H c0. pose proof (W_reg _ _ _ HW c0) as H0.
+  assert (Hlt : t < n).
+  { eapply thr_lt; eauto. unfold step in H. destruct (thr s t); discriminate. }
+  pose proof (W_bod _ _ _ HW) as Hbod.
+  step_inv H.
+  all: pend_rel HB Hlt Hbod.
+  all: unfold used_reg in *; cbn; unfold upd; eqb_cases; cbn.
+  all: try match goal with Hc : cst (cbs _ _) = _ |- _ => rewrite ?Hc in H0 end.
+  all: repeat match goal with E : context [instr_eq_dec ?a ?b] |- _ => destruct (instr_eq_dec a b) end.
+  all: try lia; try congruence.
+  - assert (Hc : cst (cbs s n0) = CLinked) by (apply (B_in _ HB); rewrite Heql0; now left).
+    rewrite Hc in H0. lia.
+  - assert (Hc : cst (cbs s c) = CReg) by (apply (B_reg _ HB t); rewrite Heql; now left).
+    rewrite Hc in H0. lia.
+Qed.
+
+Lemma InvW_dereg n m s t s' ev : InvB s -> InvE s -> InvW n m s -> step t s = Some (s', ev) ->
+  forall c0, pend (IDereg c0) n m s' + used_dereg s' c0 <= 1.
+Proof.
+  intros HB HE HW H c0. pose proof (W_dereg _ _ _ HW c0) as H0.
+  assert (Hlt : t < n).
+  { eapply thr_lt; eauto. unfold step in H. destruct (thr s t); discriminate. }
+  pose proof (W_bod _ _ _ HW) as Hbod.
+  step_inv H.
+  all: pend_rel HB Hlt Hbod.
+  all: unfold used_dereg in *; cbn; unfold upd; eqb_cases; cbn.
+  all: try match goal with Hc : dst (cbs _ _) = _ |- _ => rewrite ?Hc in H0 end.
+  all: repeat match goal with E : context [instr_eq_dec ?a ?b] |- _ => destruct (instr_eq_dec a b) end.
+  all: try lia; try congruence.
+  all: match goal with Et : thr _ _ = _ :: _ |- _ =>
+         destruct (dereg_top_started _ _ c _ _ HE Et) as [Hds _];
+         [cbn; now rewrite Nat.eqb_refl|rewrite Hds in H0; lia] end.
+Qed.
+
+Lemma InvW_step n m s t s' ev : InvB s -> InvE s -> InvW n m s -> step t s = Some (s', ev) -> InvW n m s'.
+Proof.
+  intros HB HE HW H. constructor.
+  - intros t0 Ht0. pose proof (W_thr _ _ _ HW t0 Ht0) as E0.
+    assert (Hlt : t < n).
+    { eapply thr_lt; eauto. unfold step in H. destruct (thr s t); discriminate. }
+    assert (t0 <> t) by lia.
+    step_inv H; cbn; rewrite upd_neq; auto.
+  - intros c Hc. pose proof (W_bod _ _ _ HW c Hc). step_inv H; cbn; auto.
+  - eapply InvW_reg; eauto.
+  - eapply InvW_dereg; eauto.
+Qed.
+
+Lemma sumn_zero n f : (forall i, f i = 0) -> sumn n f = 0.
+Proof. intros H. induction n; cbn; auto. rewrite IHn, H. reflexivity. Qed.
+
+Lemma cnti_app i a b : cnti i (a ++ b) = cnti i a + cnti i b.
+Proof. unfold cnti. apply count_occ_app. Qed.
+
+(* sum of the per-program counts = count in the concatenation *)
+Lemma sumn_concat i (ps : list prog) :
+  sumn (length ps) (fun t => cnti i (nth t ps [])) = cnti i (concat ps).
+Proof.
+  induction ps as [|p ps IH] using rev_ind; cbn; auto.
+  rewrite app_length, Nat.add_comm. cbn. rewrite concat_app, cnti_app. cbn. rewrite app_nil_r.
+  rewrite app_nth2, Nat.sub_diag by lia. cbn.
+  rewrite <- IH. f_equal. apply sumn_ext. intros j Hj. now rewrite app_nth1.
+Qed.
+
+Lemma InvW_init progs bods : wf progs bods -> InvW (length progs) (length bods) (init progs bods).
+Proof.
+  intros Hwf.
+  assert (Hp : forall i, pend i (length progs) (length bods) (init progs bods) =
+                         cnti i (concat progs ++ concat bods)).
+  { intros i. unfold pend. rewrite cnti_app, <- !sumn_concat. f_equal.
+    - apply sumn_ext. intros t Ht. cbn.
+      destruct (nth_error progs t) eqn:En.
+      + cbn. rewrite (nth_error_nth _ _ _ En). lia.
+      + apply nth_error_None in En. lia. }
+  constructor.
+  - intros t Ht. cbn. apply nth_error_None in Ht. now rewrite Ht.
+  - intros c Hc. cbn. apply nth_overflow. exact Hc.
+  - intros c. rewrite Hp. unfold used_reg. cbn. destruct (Hwf c). lia.
+  - intros c. rewrite Hp. unfold used_dereg. cbn. destruct (Hwf c). lia.
+Qed.
+
+(* for well-formed programs the discipline guards other than "the constructor has returned"
+   never block: a registration instruction always finds a fresh id, a destruction instruction is
+   never a second destruction *)
+Theorem wf_guards progs bods sched : wf progs bods ->
+  let s := fst (run step sched (init progs bods, [])) in
+  forall t oc k rest c,
+    (thr s t = FRun oc (IReg c :: k) :: rest -> cst (cbs s c) = CNew) /\
+    (thr s t = FRun oc (IDereg c :: k) :: rest -> dst (cbs s c) = DNone).
+Proof.
+  intros Hwf s t oc k rest c.
+  assert (HW : InvW (length progs) (length bods) s /\ Inv (run step sched (init progs bods, []))).
+  { unfold s.
+    apply (run_invariant _ _ _ step (fun c => InvW (length progs) (length bods) (fst c) /\ Inv c)).
+    - intros cf t0 s' ev [HW HI] H. split; [|eapply Inv_step; eauto].
+      cbn. eapply InvW_step; eauto; apply HI.
+    - split; [apply InvW_init; auto|apply Inv_init]. }
+  destruct HW as [HW HI].
+  assert (Hge : forall i, thr s t = FRun oc (i :: k) :: rest -> 1 <= pend i (length progs) (length bods) s).
+  { intros i Et. assert (Hlt : t < length progs) by (eapply thr_lt; eauto; rewrite Et; discriminate).
+    unfold pend.
+    pose proof (sumn_upd (length progs) (fun t0 => stk_cnt i (thr s t0))
+                  (fun t0 => if Nat.eqb t0 t then 0 else stk_cnt i (thr s t0)) t) as Hu.
+    cbv beta in Hu. rewrite Nat.eqb_refl in Hu.
+    assert (Hne : forall j, j <> t -> (if Nat.eqb j t then 0 else stk_cnt i (thr s j)) = stk_cnt i (thr s j)).
+    { intros j Hj. apply Nat.eqb_neq in Hj. now rewrite Hj. }
+    specialize (Hu Hne Hlt). rewrite Et in Hu. cbn [stk_cnt] in Hu. rewrite cnti_cons in Hu.
+    destruct (instr_eq_dec i i); [|congruence]. lia. }
+  split; intros Et.
+  - pose proof (W_reg _ _ _ HW c) as H1. specialize (Hge _ Et). unfold used_reg in H1.
+    destruct (cst (cbs s c)); auto; lia.
+  - pose proof (W_dereg _ _ _ HW c) as H1. specialize (Hge _ Et). unfold used_dereg in H1.
+    destruct (dst (cbs s c)); auto; lia.
+Qed.
+
+(* a decidable check of well-formedness *)
+Definition reg_ids (k : prog) : list nat := flat_map (fun i => match i with IReg c => [c] | _ => [] end) k.
+Definition dereg_ids (k : prog) : list nat := flat_map (fun i => match i with IDereg c => [c] | _ => [] end) k.
+Fixpoint nodupb (l : list nat) : bool :=
+  match l with [] => true | x :: r => negb (existsb (Nat.eqb x) r) && nodupb r end.
+Definition wfb (progs bods : list prog) : bool :=
+  nodupb (reg_ids (concat progs ++ concat bods)) && nodupb (dereg_ids (concat progs ++ concat bods)).
+
+Lemma nodupb_count l c : nodupb l = true -> count_occ Nat.eq_dec l c <= 1.
+Proof.
+  induction l as [|x r IH]; cbn; auto. intros H. apply andb_true_iff in H. destruct H as [Hx Hr].
+  specialize (IH Hr). destruct (Nat.eq_dec x c) as [->|Hne]; auto.
+  assert (Hz : count_occ Nat.eq_dec r c = 0).
+  { apply count_occ_not_In. intros Hin. apply negb_true_iff in Hx.
+    assert (existsb (Nat.eqb c) r = true) by (apply existsb_exists; exists c; split; auto; apply Nat.eqb_refl).
+    congruence. }
+  lia.
+Qed.
+
+Lemma cnti_reg_ids c k : cnti (IReg c) k = count_occ Nat.eq_dec (reg_ids k) c.
+Proof.
+  induction k as [|i k IH]; [reflexivity|]. rewrite cnti_cons, IH.
+  change (reg_ids (i :: k)) with ((match i with IReg c => [c] | _ => [] end) ++ reg_ids k).
+  destruct i; cbn [app count_occ]; try (destruct (instr_eq_dec _ _); [discriminate|reflexivity]).
+  destruct (instr_eq_dec (IReg c0) (IReg c)) as [E|E]; destruct (Nat.eq_dec c0 c); try congruence; lia.
+Qed.
+
+Lemma cnti_dereg_ids c k : cnti (IDereg c) k = count_occ Nat.eq_dec (dereg_ids k) c.
+Proof.
+  induction k as [|i k IH]; [reflexivity|]. rewrite cnti_cons, IH.
+  change (dereg_ids (i :: k)) with ((match i with IDereg c => [c] | _ => [] end) ++ dereg_ids k).
+  destruct i; cbn [app count_occ]; try (destruct (instr_eq_dec _ _); [discriminate|reflexivity]).
+  destruct (instr_eq_dec (IDereg c0) (IDereg c)) as [E|E]; destruct (Nat.eq_dec c0 c); try congruence; lia.
+Qed.
+
+Lemma wfb_wf progs bods : wfb progs bods = true -> wf progs bods.
+Proof.
+  unfold wfb. intros H. apply andb_true_iff in H. destruct H as [H1 H2]. intros c. split.
+  - rewrite cnti_reg_ids. now apply nodupb_count.
+  - rewrite cnti_dereg_ids. now apply nodupb_count.
+Qed.
